@@ -194,7 +194,7 @@ type c19Item struct {
 func c19Judge(stmts []string) (sig, detail string, skipped bool) {
 	ref := refsem.NewInterp()
 	s := impl.NewSession()
-	refused := 0
+	refused, failed := 0, 0
 	for i, src := range stmts {
 		pr := impl.ParseCached(src)
 		if pr.Err != "" || pr.Panic != "" || pr.FuelOut != "" {
@@ -314,10 +314,10 @@ func c19Judge(stmts []string) (sig, detail string, skipped bool) {
 					}
 				}
 			}
-			return "", "", false // the first failing statement is the item's subject
+			failed++ // every failing statement of the session is judged (a later report must not show what an earlier failure left behind)
 		}
 	}
-	return "", "", true // nothing failed
+	return "", "", failed == 0
 }
 
 func frameNames(fs []refsem.FrameInfo) []string {
@@ -444,6 +444,17 @@ func c19Sites() []c19Site {
 		}},
 		{"generator-loop-after-a-zip-in-the-same-statement", func(f c19Fail) []string {
 			return withPre("pv = "+f.P, "gen = (p, q) -> {\n  yield 1\n  "+f.Src+"\n  yield 2\n}", "{\n  for a, b <- fromto(0, 2), fromto(0, 3) t = a + b\n  for i <- gen(pv, 1) t = i\n}")
+		}},
+		{"after-an-earlier-failure-inside-a-generator-forked-in-a-call", func(f c19Fail) []string {
+			// the first failing statement dies in a generator that a function's loop forked; the second is the judged one
+			return withPre("halves = (n) -> {\n  while n > 1 {\n    n = n / 2\n    yield n\n  }\n}",
+				"total = (start, bonus) -> {\n  s = bonus\n  for h <- halves(start) s = s + h\n  s\n}",
+				"total(\"sixteen\", 1)", "total(8, 0)",
+				"fa = (p, q) -> "+f.Src, "fb = (p) -> fa(p, 2) + 1", "fb("+f.P+")")
+		}},
+		{"after-an-earlier-failure-in-nested-calls", func(f c19Fail) []string {
+			return withPre("da = (x) -> 1 / x", "db = (x) -> da(x) + 1", "dc = (x, y) -> db(x) + y", "dc(0, \"stale\")",
+				"fa = (p, q) -> "+f.Src, "fa("+f.P+", 2)")
 		}},
 		{"body-of-loop-over-generator", func(f c19Fail) []string {
 			return withPre("lit = () -> {\n  yield 1\n  yield 2\n}", "fa = (p, q) -> for i <- lit() if i == 2 {\n  "+f.Src+"\n}", "fa("+f.P+", 4)")
